@@ -360,6 +360,8 @@ def rule_readfail(ctx):
     err_targets = []
     fe = mir.strip_sites(b.call_expr(fetch_cs))
     for (src, dst), fs in b.edge_facts().items():
+        if b.edge_infeasible(src, dst):
+            continue
         for f in fs:
             if f[0] == 'is' and mir.strip_sites(peel(f[1], calls=False)) == fe and f[2] == ('Err',):
                 err_targets.append(dst)
